@@ -1,7 +1,490 @@
-//! C15 driver (stub: not built yet).
-use crate::trace::Args;
+//! C15 driver: elliptic-curve arithmetic of ecm.rs (512-bit) and ecm128.rs (128-bit).
+//!
+//! Every event carries the curve (a, d, n), the input points and the output of ONE call of the real
+//! code, all as plain residues (Montgomery form removed with `zn.to_int`).  Input points are
+//! multiples [j]G of the generator computed by this harness with its own arithmetic (the affine
+//! addition law evaluated with `gen::mulmod`), so they do not depend on the code under test; the
+//! generator and the coefficient d come from the curve constructors of the library and are judged
+//! by the `curve` event.  spec/edwards/EdwardsTrace.tla decides.
 
-pub fn run(_args: &Args) -> i32 {
-    eprintln!("driver c15 not built yet");
-    2
+use rand::rngs::StdRng;
+use rand::Rng;
+use serde_json::{json, Value};
+
+use yamaquasi::arith_montgomery::{MInt, ZmodN};
+use yamaquasi::ecm::{self, vhook as eh, Curve, SmoothBase, Suyama11};
+use yamaquasi::ecm128::vhook as h128;
+
+use crate::gen::{mulmod, rand_bits, rng_for, Uint};
+use crate::trace::*;
+
+type P3 = (Uint, Uint, Uint);
+
+fn u(s: &str) -> Uint {
+    Uint::from_str_radix(s, 10).unwrap()
+}
+
+fn addm(a: &Uint, b: &Uint, n: &Uint) -> Uint {
+    (*a + *b) % *n
+}
+fn subm(a: &Uint, b: &Uint, n: &Uint) -> Uint {
+    (*a + *n - *b) % *n
+}
+
+/// the addition law with cleared denominators, on plain residues (harness side: only used to
+/// produce input points [j]G; never to judge)
+fn nat_add(a: &Uint, d: &Uint, n: &Uint, p: &P3, q: &P3) -> P3 {
+    let zz = mulmod(&p.2, &q.2, n);
+    let b = mulmod(&zz, &zz, n);
+    let x1x2 = mulmod(&p.0, &q.0, n);
+    let y1y2 = mulmod(&p.1, &q.1, n);
+    let n1 = addm(&mulmod(&p.0, &q.1, n), &mulmod(&p.1, &q.0, n), n);
+    let n2 = subm(&y1y2, &mulmod(a, &x1x2, n), n);
+    let e = mulmod(d, &mulmod(&x1x2, &y1y2, n), n);
+    let f = subm(&b, &e, n);
+    let g = addm(&b, &e, n);
+    (mulmod(&mulmod(&n1, &zz, n), &f, n), mulmod(&mulmod(&n2, &zz, n), &g, n), mulmod(&f, &g, n))
+}
+
+fn nat_mul(a: &Uint, d: &Uint, n: &Uint, k: u64, p: &P3) -> P3 {
+    let mut r = (Uint::ZERO, Uint::ONE, Uint::ONE);
+    for i in (0..64 - k.leading_zeros()).rev() {
+        r = nat_add(a, d, n, &r, &r);
+        if (k >> i) & 1 == 1 {
+            r = nat_add(a, d, n, &r, p);
+        }
+    }
+    r
+}
+
+fn to_m(zn: &ZmodN, p: &P3) -> eh::P3 {
+    (zn.from_int(p.0), zn.from_int(p.1), zn.from_int(p.2))
+}
+fn from_m(zn: &ZmodN, p: &eh::P3) -> P3 {
+    (zn.to_int(p.0), zn.to_int(p.1), zn.to_int(p.2))
+}
+fn j3(p: &P3) -> Value {
+    json!([dn(&p.0), dn(&p.1), dn(&p.2)])
+}
+fn j3m(zn: &ZmodN, p: &eh::P3) -> Value {
+    j3(&from_m(zn, p))
+}
+fn j4m(zn: &ZmodN, p: &eh::P4) -> Value {
+    json!([dn(&zn.to_int(p.0)), dn(&zn.to_int(p.1)), dn(&zn.to_int(p.2)), dn(&zn.to_int(p.3))])
+}
+fn lo128(m: &MInt) -> u128 {
+    m.0[0] as u128 | (m.0[1] as u128) << 64
+}
+fn mint128(x: u128) -> MInt {
+    let mut m = MInt::default();
+    m.0[0] = x as u64;
+    m.0[1] = (x >> 64) as u64;
+    m
+}
+fn to128(p: &eh::P3) -> h128::P3 {
+    (lo128(&p.0), lo128(&p.1), lo128(&p.2))
+}
+fn to128e(p: &eh::P4) -> h128::P4 {
+    (lo128(&p.0), lo128(&p.1), lo128(&p.2), lo128(&p.3))
+}
+fn j3r(zn: &ZmodN, p: &h128::P3) -> Value {
+    j3m(zn, &(mint128(p.0), mint128(p.1), mint128(p.2)))
+}
+fn j4r(zn: &ZmodN, p: &h128::P4) -> Value {
+    j4m(zn, &(mint128(p.0), mint128(p.1), mint128(p.2), mint128(p.3)))
+}
+
+struct Cv {
+    name: String,
+    zn: ZmodN,
+    c: Curve,
+    n: Uint,
+    a: Uint,
+    d: Uint,
+    g: P3,
+    twisted: bool,
+}
+
+impl Cv {
+    fn base(&self, op: &str, case: &str) -> Value {
+        json!({"op": op, "case": case, "curve": self.name, "n": dn(&self.n), "nd": self.n.to_string(),
+               "a": dn(&self.a), "d": dn(&self.d), "tw": self.twisted, "words": self.zn.words()})
+    }
+    fn mul(&self, j: u64) -> P3 {
+        nat_mul(&self.a, &self.d, &self.n, j, &self.g)
+    }
+}
+
+/// fixed known primes and seeded random composites coprime to 6, of 1, 2, 4, 8 words
+fn moduli(rng: &mut StdRng, thorough: bool) -> Vec<(String, Uint)> {
+    let mut v = vec![
+        ("p1w".to_string(), u("18446744073709551557")),                       // 2^64 - 59
+        ("p2w".to_string(), (Uint::ONE << 127) - Uint::ONE),                  // 2^127 - 1
+        ("p4w".to_string(), (Uint::ONE << 255) - Uint::from(19u64)),          // 2^255 - 19
+        ("p8w".to_string(), u("801643889160962459503567529599420993581193510766215918385643775834136080985009029500140562854896402036056836567241446409601881132259487327233447")),
+        ("p1w61".to_string(), (Uint::ONE << 61) - Uint::ONE),
+    ];
+    let sizes: &[(u32, &str)] = if thorough {
+        &[(64, "c1w"), (128, "c2w"), (192, "c3w"), (256, "c4w"), (320, "c5w"), (384, "c6w"), (448, "c7w"), (500, "c8w"), (40, "c1ws"), (100, "c2ws")]
+    } else {
+        &[(64, "c1w"), (128, "c2w"), (256, "c4w"), (500, "c8w"), (100, "c2ws")]
+    };
+    for &(bits, name) in sizes {
+        loop {
+            // product of two odd numbers: composite; top bits set so that the size is exact or one less
+            let a = rand_bits(rng, bits / 2) | Uint::ONE;
+            let b = rand_bits(rng, bits - bits / 2) | Uint::ONE;
+            let n = a * b;
+            if (n % Uint::from(3u64)).is_zero() || n.bits() > 500 {
+                continue;
+            }
+            v.push((name.to_string(), n));
+            break;
+        }
+    }
+    v
+}
+
+fn build_curves(name: &str, n: &Uint, seeds: &[u32], out: &mut Out) -> Vec<Cv> {
+    let mut v = vec![];
+    let zn = ZmodN::new(*n);
+    for &seed in seeds {
+        // family 1: Edwards curve a = 1 through (3k+5, 4k+5)
+        let k = seed as u64 % (1 << 24);
+        let cname = format!("{}/e{}", name, seed);
+        match guard(|| Curve::from_point(zn.clone(), 3 * k + 5, 4 * k + 5)) {
+            Ok(Ok(c)) => v.push(mk(cname, &zn, c)),
+            Ok(Err(_)) => {}
+            Err(e) => out.ev2(json!({"op": "curve", "case": cname, "n": dn(n), "nd": n.to_string()}), e),
+        }
+        // family 2: Suyama-11 twisted curve of parameter [seed]G
+        let cname = format!("{}/s{}", name, seed);
+        let r = guard(|| {
+            let s = Suyama11::new(&zn).ok()?;
+            let g = s.element(seed).and_then(|p| s.params_point(&p)).ok()?;
+            Curve::twisted_from_point(zn.clone(), g).ok()
+        });
+        match r {
+            Ok(Some(c)) => v.push(mk(cname, &zn, c)),
+            Ok(None) => {}
+            Err(e) => out.ev2(json!({"op": "curve", "case": cname, "n": dn(n), "nd": n.to_string()}), e),
+        }
+    }
+    v
+}
+
+fn mk(name: String, zn: &ZmodN, c: Curve) -> Cv {
+    let n = zn.n;
+    let (a, d) = c.a_d();
+    let a = if a == 1 { Uint::ONE } else { n - Uint::ONE };
+    let g = from_m(zn, &eh::coords(c.gen()));
+    let twisted = eh::curve_twisted(&c);
+    Cv { name, zn: zn.clone(), c, n, a, d, g, twisted }
+}
+
+fn merge(mut base: Value, r: Result<Value, Value>) -> Value {
+    let extra = match r {
+        Ok(v) => v,
+        Err(v) => v,
+    };
+    if let (Some(b), Some(e)) = (base.as_object_mut(), extra.as_object()) {
+        for (k, v) in e {
+            b.insert(k.clone(), v.clone());
+        }
+    }
+    base
+}
+
+/// one event per formula of both implementations for the pair of points ([i]G, [j]G)
+fn formula_events(cv: &Cv, i: u64, j: u64, out: &mut Out) {
+    let zn = &cv.zn;
+    let c = &cv.c;
+    let (p, q) = (cv.mul(i), cv.mul(j));
+    let (pm, qm) = (to_m(zn, &p), to_m(zn, &q));
+    let case = format!("{}/{}+{}", cv.name, i, j);
+    let b = |op: &str| {
+        let mut v = cv.base(op, &case);
+        v["p"] = j3(&p);
+        v["q"] = j3(&q);
+        v["i"] = json!(i);
+        v["j"] = json!(j);
+        v
+    };
+    out.ev(merge(b("add"), guard(|| json!({"r": j3m(zn, &eh::add(c, &pm, &qm))}))));
+    out.ev(merge(b("sub"), guard(|| json!({"r": j3m(zn, &eh::sub(c, &pm, &qm))}))));
+    out.ev(merge(b("double"), guard(|| json!({"r": j3m(zn, &eh::double(c, &pm))}))));
+    out.ev(merge(b("to_ext"), guard(|| json!({"r": j4m(zn, &eh::to_extended(c, &pm))}))));
+    out.ev(merge(b("dblext"), guard(|| json!({"r": j4m(zn, &eh::dblext(c, &pm))}))));
+    out.ev(merge(b("is_valid"), guard(|| {
+        // a point and a deliberately shifted non-point
+        let bad = (pm.0, zn.add(&pm.1, &zn.one()), pm.2);
+        json!({"ok": eh::is_valid(c, &pm), "bad": j3m(zn, &bad), "okbad": eh::is_valid(c, &bad)})
+    })));
+    // extended inputs are built by the harness (Segre embedding of its own points)
+    let ext = |p: &P3| -> (Uint, Uint, Uint, Uint) {
+        (mulmod(&p.0, &p.2, &cv.n), mulmod(&p.1, &p.2, &cv.n), mulmod(&p.2, &p.2, &cv.n), mulmod(&p.0, &p.1, &cv.n))
+    };
+    let (pe, qe) = (ext(&p), ext(&q));
+    let em = |e: &(Uint, Uint, Uint, Uint)| (zn.from_int(e.0), zn.from_int(e.1), zn.from_int(e.2), zn.from_int(e.3));
+    let (pem, qem) = (em(&pe), em(&qe));
+    if i != j {
+        // the extended additions are documented as not valid for P = Q
+        out.ev(merge(b("addext"), guard(|| json!({"r": j4m(zn, &eh::addext(c, &pem, &qem))}))));
+        out.ev(merge(b("addextproj"), guard(|| json!({"r": j3m(zn, &eh::addextproj(c, &pem, &qem))}))));
+        out.ev(merge(b("subextproj"), guard(|| json!({"r": j3m(zn, &eh::subextproj(c, &pem, &qem))}))));
+    }
+    if cv.twisted && cv.n.bits() <= 128 {
+        let n128 = cv.n.digits()[0] as u128 | (cv.n.digits()[1] as u128) << 64;
+        let r = guard(|| h128::from_point(n128, &to128(&eh::coords(c.gen()))));
+        let c128 = match r {
+            Ok(c) => c,
+            Err(e) => {
+                out.ev(merge(b("c128_new"), Err(e)));
+                return;
+            }
+        };
+        let (p8, q8) = (to128(&pm), to128(&qm));
+        let (pe8, qe8) = (to128e(&pem), to128e(&qem));
+        out.ev(merge(b("c128_double"), guard(|| json!({"r": j3r(zn, &h128::double(&c128, &p8))}))));
+        out.ev(merge(b("c128_dblext"), guard(|| json!({"r": j4r(zn, &h128::dblext(&c128, &p8))}))));
+        out.ev(merge(b("c128_ext"), guard(|| json!({"r": j4r(zn, &h128::ext(&c128, &p8))}))));
+        out.ev(merge(b("c128_is_valid"), guard(|| {
+            let bad = (pe8.0, lo128(&zn.add(&pem.1, &zn.one())), pe8.2, pe8.3);
+            json!({"ok": h128::is_valid(&c128, &pe8), "okbad": h128::is_valid(&c128, &bad)})
+        })));
+        if i != j {
+            out.ev(merge(b("c128_add"), guard(|| json!({"r": j4r(zn, &h128::add(&c128, &pe8, &qe8))}))));
+        }
+        if 2 * i != j {
+            out.ev(merge(b("c128_dbladd"), guard(|| json!({"r": j3r(zn, &h128::dbladd(&c128, &p8, &qe8))}))));
+        }
+        let _ = q8;
+    }
+}
+
+fn scalars64(rng: &mut StdRng, thorough: bool, long: &[u64]) -> Vec<(String, u64)> {
+    let mut v: Vec<(String, u64)> = vec![];
+    let step = if thorough { 1 } else { 3 };
+    for k in (0..=300u64).step_by(step) {
+        v.push(("small".into(), k));
+    }
+    for k in 0..16u64 {
+        v.push(("small".into(), k));
+    }
+    for j in 0..64 {
+        v.push(("pow2".into(), 1u64 << j));
+        v.push(("pow2m1".into(), (1u64 << j).wrapping_sub(1)));
+    }
+    v.push(("ones".into(), u64::MAX));
+    for i in 1..=32u64 {
+        v.push(("top".into(), u64::MAX - (i - 1)));
+    }
+    for &e in &[32u32, 48, 63] {
+        for i in 0..8u64 {
+            v.push(("mid".into(), (1u64 << e) + i));
+            v.push(("mid".into(), (1u64 << e) - 1 - i));
+        }
+    }
+    // products of prime powers exactly as SmoothBase builds them
+    for &b1 in &[16usize, 200, 10_000, 100_000] {
+        for large in [false, true] {
+            let sb = SmoothBase::new(b1, large);
+            let (f, _) = ecm::vhook_smooth::blocks(&sb);
+            let take = if thorough { 40 } else { 6 };
+            for (i, &x) in f.iter().enumerate() {
+                if i < take || i + take >= f.len() {
+                    v.push((format!("smooth{}", b1), x));
+                }
+            }
+        }
+    }
+    // scalars whose chains are the longest the model (AddChain.tla) finds, scaled to 64 bits: the
+    // 16-bit pattern t.a.b.c becomes t.a...a.b.c (nibbles)
+    for &k16 in long {
+        let (t, a, b, c) = ((k16 >> 12) & 15, (k16 >> 8) & 15, (k16 >> 4) & 15, k16 & 15);
+        let mut k = t;
+        for _ in 0..13 {
+            k = k << 4 | a;
+        }
+        k = (k << 4 | b) << 4 | c;
+        v.push(("longchain".into(), k));
+    }
+    for _ in 0..(if thorough { 200 } else { 30 }) {
+        let bits = rng.gen_range(2..=64);
+        v.push(("random".into(), rand_bits(rng, bits).digits()[0]));
+    }
+    v.sort();
+    v.dedup_by(|a, b| a.1 == b.1);
+    v
+}
+
+fn scalars1024(rng: &mut StdRng, thorough: bool) -> Vec<(String, Uint)> {
+    let mut v = vec![];
+    let one = Uint::ONE;
+    v.push(("ones".to_string(), Uint::MAX));
+    v.push(("zero".to_string(), Uint::ZERO));
+    v.push(("one".to_string(), one));
+    for &e in &[1u32, 63, 64, 65, 127, 128, 500, 1000, 1023] {
+        v.push(("pow2".to_string(), one << e));
+        v.push(("pow2m1".to_string(), (one << e) - one));
+        v.push(("pow2p".to_string(), (one << e) + Uint::from(0x5bu64)));
+    }
+    for i in 0..8u64 {
+        v.push(("top".to_string(), Uint::MAX - Uint::from(i * 37)));
+    }
+    for i in [900u32, 960, 1019] {
+        v.push(("sparse".to_string(), (one << i) | (one << (i - 400))));
+        v.push(("sparseneg".to_string(), (one << i) + (one << (i - 300)) - (one << (i / 2))));
+    }
+    // the real 1024-bit blocks of the smoothness base
+    for &b1 in &[10_000usize, 100_000] {
+        let sb = SmoothBase::new(b1, true);
+        let (_, l) = ecm::vhook_smooth::blocks(&sb);
+        let take = if thorough { 6 } else { 2 };
+        for (i, x) in l.iter().enumerate() {
+            if i < take || i + take >= l.len() {
+                v.push((format!("smooth{}", b1), *x));
+            }
+        }
+    }
+    for _ in 0..(if thorough { 40 } else { 6 }) {
+        let bits = rng.gen_range(65..=1024);
+        v.push(("random".to_string(), rand_bits(rng, bits)));
+    }
+    // words of all-ones / alternating patterns (carry chains across the 64-bit refill boundary)
+    let mut d = [0u64; 16];
+    for (i, w) in d.iter_mut().enumerate() {
+        *w = if i % 2 == 0 { u64::MAX } else { 0 };
+    }
+    v.push(("altwords".to_string(), Uint::from_digits(d)));
+    for w in d.iter_mut() {
+        *w = 0x7777_7777_7777_7777;
+    }
+    v.push(("nib7".to_string(), Uint::from_digits(d)));
+    for w in d.iter_mut() {
+        *w = 0xfefe_fefe_fefe_fefe;
+    }
+    v.push(("fe".to_string(), Uint::from_digits(d)));
+    v
+}
+
+pub fn run(args: &Args) -> i32 {
+    let seed = arg_u64(args, "seed", 1);
+    let thorough = arg_str(args, "tier", "quick") == "thorough";
+    let mut out = Out::create(arg_str(args, "out", "trace.ndjson"));
+    let mut rng = rng_for(seed, "c15");
+    let long: Vec<u64> = match args.get("long") {
+        Some(p) => read_ndjson(p).iter().filter_map(|v| v["k"].as_u64()).collect(),
+        None => vec![],
+    };
+
+    // ---- chains by themselves (pure integer events)
+    let s64 = scalars64(&mut rng, thorough, &long);
+    for (cls, k) in &s64 {
+        let case = format!("k64/{}", k);
+        let r = guard(|| json!({"chain": eh::make_addition_chain(*k).iter().map(|&x| x as i64).collect::<Vec<_>>()}));
+        out.ev(merge(json!({"op": "chain64", "case": case, "cls": cls, "k": du(*k), "kd": k.to_string()}), r));
+    }
+    let s1024 = scalars1024(&mut rng, thorough);
+    for (cls, k) in &s1024 {
+        let case = format!("k1024/{}", k);
+        let r = guard(|| json!({"chain": eh::make_addition_chain_long(k).iter().map(|&x| x as i64).collect::<Vec<_>>()}));
+        out.ev(merge(json!({"op": "chain1024", "case": case, "cls": cls, "k": dn(k), "kd": k.to_string()}), r));
+    }
+
+    // ---- curves
+    let mods = moduli(&mut rng, thorough);
+    let seeds: Vec<u32> = if thorough {
+        vec![2, 3, 4, 7, 11, 40, 1000, 65537, 0x7fff_ffff, rng.gen_range(2..1 << 31)]
+    } else {
+        vec![2, 5, 40, rng.gen_range(2..1 << 31)]
+    };
+    let mut small_curves: Vec<Cv> = vec![]; // moduli of at most 2 words: used for the scalar events
+    let mut big_curves: Vec<Cv> = vec![];
+    for (name, n) in &mods {
+        let words = (n.bits() + 63) / 64;
+        let sd: Vec<u32> = if words > 2 && !thorough { seeds[..2].to_vec() } else { seeds.clone() };
+        for cv in build_curves(name, n, &sd, &mut out) {
+            let mut e = cv.base("curve", &cv.name);
+            e["g"] = j3(&cv.g);
+            out.ev(e);
+            if words <= 2 {
+                small_curves.push(cv);
+            } else {
+                big_curves.push(cv);
+            }
+        }
+    }
+    // ---- formulas
+    let pairs: &[(u64, u64)] = if thorough {
+        &[(1, 1), (1, 2), (2, 1), (3, 5), (7, 20), (20, 20), (13, 1), (2, 4), (19, 17)]
+    } else {
+        &[(1, 1), (1, 2), (3, 5), (20, 7)]
+    };
+    for cv in small_curves.iter().chain(big_curves.iter()) {
+        for &(i, j) in pairs {
+            formula_events(cv, i, j, &mut out);
+        }
+    }
+    // ---- scalar multiplications (spec recomputes [k]P by plain double-and-add: keep moduli small)
+    assert!(!small_curves.is_empty());
+    let nsc = small_curves.len();
+    let ncur = small_curves.len() + big_curves.len();
+    for (idx, (cls, k)) in s64.iter().enumerate() {
+        // big moduli only for a handful of cheap (small) scalars
+        let cv = if *k < 64 && idx % 5 == 0 && !big_curves.is_empty() {
+            &big_curves[idx % big_curves.len()]
+        } else {
+            &small_curves[idx % nsc]
+        };
+        let _ = ncur;
+        let j = [1u64, 2, 3, 7, 20][idx % 5];
+        let p = cv.mul(j);
+        let pm = to_m(&cv.zn, &p);
+        let case = format!("{}/{}*[{}]G", cv.name, k, j);
+        let b = |op: &str| {
+            let mut v = cv.base(op, &case);
+            v["p"] = j3(&p);
+            v["k"] = du(*k);
+            v["kd"] = json!(k.to_string());
+            v["cls"] = json!(cls);
+            v["j"] = json!(j);
+            v
+        };
+        let c = &cv.c;
+        let zn = &cv.zn;
+        out.ev(merge(b("chainmul64"), guard(|| json!({"r": j3m(zn, &eh::coords(&c.scalar64_chainmul(*k, &eh::point(&pm))))}))));
+        if idx % 3 == 0 || cls == "top" || cls == "longchain" {
+            out.ev(merge(b("dbladd64"), guard(|| json!({"r": j3m(zn, &eh::coords(&c.scalar64_mul_dbladd(*k, &eh::point(&pm))))}))));
+        }
+        if cv.twisted && cv.n.bits() <= 128 {
+            let n128 = cv.n.digits()[0] as u128 | (cv.n.digits()[1] as u128) << 64;
+            let r = guard(|| {
+                let c128 = h128::from_point(n128, &to128(&eh::coords(c.gen())));
+                let r128 = h128::scalar64_mul(&c128, *k, &to128(&pm));
+                let r512 = eh::coords(&c.scalar64_chainmul(*k, &eh::point(&pm)));
+                json!({"r": j3r(zn, &r128), "r512": j3m(zn, &r512)})
+            });
+            out.ev(merge(b("mul128"), r));
+        }
+    }
+    // 1024-bit scalars on one-word moduli
+    let one_word: Vec<&Cv> = small_curves.iter().filter(|c| c.n.bits() <= 64).collect();
+    for (idx, (cls, k)) in s1024.iter().enumerate() {
+        let cv = one_word[idx % one_word.len()];
+        let j = [1u64, 3, 20][idx % 3];
+        let p = cv.mul(j);
+        let pm = to_m(&cv.zn, &p);
+        let case = format!("{}/K{}*[{}]G", cv.name, idx, j);
+        let mut v = cv.base("chainmul1024", &case);
+        v["p"] = j3(&p);
+        v["k"] = dn(k);
+        v["kd"] = json!(k.to_string());
+        v["cls"] = json!(cls);
+        let (c, zn) = (&cv.c, &cv.zn);
+        out.ev(merge(v, guard(|| json!({"r": j3m(zn, &eh::coords(&c.scalar1024_chainmul(k, &eh::point(&pm))))}))));
+    }
+    let n = out.finish();
+    println!("{}", json!({"events": n}));
+    0
 }
